@@ -579,10 +579,23 @@ def report(chk, runner, groups, variant, diffs, B, pid="C10", sigprefix="C10"):
     return nviol
 
 
+def run_coqchk(chk, pid):
+    """thorough tier: independent re-check of the compiled property file and its axiom list"""
+    with common.Lock("coq"):
+        rc, out = common.sh(["timeout", "1800", "coqchk", "-o", "-silent", "-Q", common.COQ, "QV", "QV.Props.Properties_%s" % pid], cwd=common.VERIF)
+    txt = out.decode("utf-8", "replace")
+    ok = rc == 0 and "* Axioms: <none>" in txt
+    chk.cov["coqchk"] = {"ok": ok, "summary": " ".join(txt[-600:].split())}
+    if not ok:
+        chk.violation({"kind": "proof-obligation-no-longer-checks", "property": pid, "theorem": "(coqchk)", "coqchk_output": txt[-3000:]}, no_input=True)
+
+
 def run(chk):
     runner = os.path.join(common.EXTRACT, "model_runner")
     build_shim()
     probe_exit_rounds()
+    if chk.tier == "thorough":
+        run_coqchk(chk, "C10")
     wd = common.workdir("C10")
     B = os.stat(wd).st_blksize
     quick = chk.tier == "quick"
